@@ -369,10 +369,10 @@ func (c *Ctx) havocAllCallees(st *State, ccs []*ssa.CallCommon) {
 	}
 	keep := map[string]T{}
 	for _, n := range c.R.heapOrder {
-		if !strings.HasPrefix(n, "Cnt_") && !strings.HasPrefix(n, "Last_") {
+		if !strings.HasPrefix(n, "Cnt_") && !strings.HasPrefix(n, "Last_") && !strings.HasPrefix(n, "CntFail_") {
 			continue
 		}
-		tracked := c.trackedByKey[strings.TrimPrefix(strings.TrimPrefix(n, "Cnt_"), "Last_")]
+		tracked := c.trackedByKey[strings.TrimPrefix(strings.TrimPrefix(strings.TrimPrefix(n, "CntFail_"), "Cnt_"), "Last_")]
 		reach := tracked == ""
 		for _, cc := range ccs {
 			if tracked != "" && c.mayReach(cc, tracked) {
